@@ -123,6 +123,24 @@ func (e *ordEval) evalInt(x ast.Expr) int64 {
 				return res.n
 			}
 		}
+		// a helper of the package called with the operands themselves (compareFloating(this.Val,
+		// o.(*T).Val)): its body with the arguments in place, so that the operands keep their sides
+		if e.inl != nil && e.depth < 4 {
+			if body := e.inl.Body(v); body != nil {
+				sub := &ordEval{info: e.info, side: e.side, ord: e.ord, slices: e.slices, bools: e.bools, ints: map[types.Object]int64{}, callee: e.callee, inl: e.inl, sels: e.sels, depth: e.depth + 1}
+				for k, val := range e.ints {
+					sub.ints[k] = val
+				}
+				res, ret := sub.run(body.List)
+				if sub.err == "" && ret && !res.isBool {
+					return res.n
+				}
+				if sub.err != "" {
+					e.fail("helper %s outside the fragment: %s", types.ExprString(v.Fun), sub.err)
+					return 0
+				}
+			}
+		}
 		fn := stripSpaces(types.ExprString(v.Fun))
 		if strings.HasSuffix(fn, ".GetValueType") && len(v.Args) == 0 {
 			return 1 // same-type evaluation: both operands carry the same type code
